@@ -60,6 +60,18 @@ def _ev(e, p):
             x = _ev(v, p)
             if x is UNK and isinstance(v, ast.Attribute):
                 x = Ref(_key(v, p))          # an object reached through an attribute path: known by its path only
+            if x is UNK and isinstance(v, ast.Name):
+                x = 'class:' + v.id          # a class or function named in a table: known by its name only
+            if x is UNK and isinstance(v, ast.Tuple):
+                xs = []
+                for e_ in v.elts:
+                    y = _ev(e_, p)
+                    if y is UNK and isinstance(e_, ast.Name):
+                        y = 'class:' + e_.id
+                    if y is UNK:
+                        y = '?'
+                    xs.append(y)
+                x = tuple(xs)
             vs[k.value] = x
         return UNK if any(v is UNK for v in vs.values()) else vs
     if isinstance(e, ast.Call) and isinstance(e.func, ast.Attribute) and e.func.attr == 'get' and len(e.args) in (1, 2) and not e.keywords:
@@ -235,6 +247,13 @@ def _exec(stmts, p):
         return
     elif isinstance(st, ast.Raise):
         p.done = 'raise'
+        exc = st.exc
+        what = UNK
+        if exc is not None:
+            what = _ev(exc.func if isinstance(exc, ast.Call) else exc, p)
+            if what is UNK and isinstance(exc.func if isinstance(exc, ast.Call) else exc, ast.Name):
+                what = 'class:' + (exc.func if isinstance(exc, ast.Call) else exc).id
+        p.events.append((st.lineno, 'raise', {'exc': what}, dict(p.env)))
         yield p
         return
     elif isinstance(st, (ast.For, ast.While, ast.With, ast.Try)):
